@@ -24,7 +24,10 @@ MANIFEST = dict(
     text="Pre/post contracts on the real vpmap.c discharged by CBMC with pointer/bounds checks for the flat, malformed and rr: "
          "specifications over bounded sizes (<= 8 cores / threads, strings <= 7 chars). Partial: a function-level gate, with the "
          "file: and hwloc back ends out of reach (externals).",
-    note="Not decided: file:<rankfile> and hwloc maps (fopen/getline/hwloc topology are externals), the actual thread binding done in "
+    note="Not decided: file:<rankfile> maps whose file CAN be opened (the parser: getline/strtok; several defects were observed there "
+         "by a mutation sub-agent on the unchanged tree -- inverted NULL test on local_vpmap, uninitialised rest_of_line, a one-line file "
+         "'0:3:0,2,4' segfaults -- none of them under contract) and hwloc maps (hwloc topology is external); decided for file: only "
+         "the case 'the file cannot be opened' (fopen stub answers NULL) -> flat fallback; the actual thread binding done in "
          "parsec.c / bindthread.c, over-subscribed flat maps (more threads than cores: only thread counts and memory safety). "
          "The rr:n:p:c crash is a listed known finding.",
     technique="pre/post contracts on the real vpmap.c with ghost cpusets, CBMC pointer/bounds checks, complete unwinding over bounded sizes",
@@ -47,12 +50,21 @@ def jobs(tier):
         d = {"NBC": "(%d)" % nbc, "HWC": hwc}
         tag = "t%s.c%d" % (str(nbc).replace("-", "m"), hwc)
         for i, s in enumerate(SPECS):
-            dd = dict(d); dd["SPEC"] = '"\\"%s\\""' % s
+            dd = dict(d); dd["SPEC"] = '"%s"' % s      # was doubly quoted until the C40-r2 round: the strings then began with a quote character and all took the "invalid" branch
             J.append(Job("init.fixed.%d.%s" % (i, tag), "h_vpmap.c", entry="h_fixed", defines=dd, unwind=14, bounded=b,
                          functions=FUNCS, min_obligations=5))
     for (n, p_) in [(2, 2), (1, 1)] + ([(3, 2)] if tier == "thorough" else []):
         J.append(Job("init.rr.n%d.p%d" % (n, p_), "h_vpmap.c", entry="h_rr", defines={"NBC": "(2)", "HWC": 4, "RRN": n, "RRP": p_}, unwind=10,
                      bounded=b, functions=FUNCS, min_obligations=2))
+    # "file:" specification whose file cannot be opened (fopen stub answers NULL): flat fallback (added after seeded change C40-r2)
+    for i, fs in enumerate(["file:", "file:/nonexistent", "display:file:x"]):
+        for (nbc, hwc) in sizes[:2]:
+            J.append(Job("init.file_unopenable.%d.t%s.c%d" % (i, str(nbc).replace("-", "m"), hwc), "h_vpmap.c", entry="h_file_unopenable",
+                         defines={"NBC": "(%d)" % nbc, "HWC": hwc, "FILE_SPEC": '"%s"' % fs}, unwind=20, bounded=b, functions=FUNCS,
+                         min_obligations=5))
+    J.append(Job("init_from_file.unopenable", "h_vpmap.c", entry="h_from_file_unopenable",
+                 defines={"NBC": "(2)", "HWC": 4, "FILE_SPEC": '"file:"'}, unwind=20, bounded=b,
+                 functions=["parsec_vpmap_init_from_file (early return: file cannot be opened)"], min_obligations=2))
     # relative index -> logical core of the allowed mask (parsec.c), complete over all 64-bit masks and all idx >= 0
     J.append(Job("find_core_by_idx", "h_core.c", entry="h_find_core", unwind=(22 if tier == "thorough" else 18), defines={"NBITS": (20 if tier == "thorough" else 16)}, functions=["parsec_find_core_by_idx"],
                  min_obligations=3, timeout=2400, bounded="allowed masks over the first 16 (quick) / 32 (thorough) cores, every mask and every index"))
